@@ -1,2 +1,3 @@
+@property
 def spec(self):
     return RefractoryStepMixin.refrac.fget(self)
